@@ -20,6 +20,8 @@ type Explorer struct {
 	AfterRun func(w *World, choices []int, cut bool)
 	// NoPrune disables state-key pruning (used by the litmus self-tests).
 	NoPrune bool
+	// KeepLog keeps the event log of every execution (trace collection for the conformance pass).
+	KeepLog bool
 
 	seen        map[Key]struct{}
 	stack       [][]int
@@ -98,7 +100,7 @@ func (e *Explorer) Explore() {
 		}
 		prefix := e.stack[len(e.stack)-1]
 		e.stack = e.stack[:len(e.stack)-1]
-		w, choices, cut := e.RunOne(prefix, false)
+		w, choices, cut := e.RunOne(prefix, e.KeepLog)
 		e.Execs++
 		if len(choices) > e.MaxDepth {
 			e.MaxDepth = len(choices)
